@@ -172,7 +172,7 @@ def run(pid, tier, seed):
         for k, what in replay(pid, rc["case"]):
             camp.fail(k, what, rc["case"])
     camp.merge(core.run_shards(shard, [dict(seed=core.seed_of(seed, s, 16), n=n, real_every=real_every) for s in range(shards)]))
-    return core.finish(pid, tier, seed, camp, RULE, t0, assumptions=[
+    return core.finish(pid, tier, seed, camp, RULE, t0, replay_fn=replay, assumptions=[
         "'#define-value diagnostics' is read as the diagnostics of the define check; name / function-macro codes may (not must) disappear under -R CheckDefine",
         "files that stop with a fatal error under the baseline options are outside the property",
     ])
